@@ -123,7 +123,7 @@ pub trait FromMeta: Sized {
 
     fn from_expr(expr: &Expr) -> Result<Self> {
         match *expr {
-            Expr::Lit(ref lit) => Self::from_value(&lit.lit),
+            Expr::Lit(ref lit) => no_attrs(&lit.attrs).and_then(|_| Self::from_value(&lit.lit)),
             Expr::Group(ref group) => {
                 // syn may generate this invisible group delimiter when the input to the darling
                 // proc macro (specifically, the attributes) are generated by a
@@ -168,6 +168,15 @@ pub trait FromMeta: Sized {
     #[allow(unused_variables)]
     fn from_bool(value: bool) -> Result<Self> {
         Err(Error::unexpected_type("bool"))
+    }
+}
+
+/// An attribute is something the user wrote that a plain value cannot carry; dropping it
+/// would silently change the meaning of `[#[cfg(unix)] 1, 2]`.
+fn no_attrs(attrs: &[syn::Attribute]) -> Result<()> {
+    match attrs.first() {
+        Some(attr) => Err(Error::custom("Unexpected attribute").with_span(attr)),
+        None => Ok(()),
     }
 }
 
@@ -529,20 +538,24 @@ macro_rules! from_numeric_array {
         impl FromMeta for Vec<$ty> {
             fn from_expr(expr: &syn::Expr) -> Result<Self> {
                 match expr {
-                    syn::Expr::Array(expr_array) => expr_array
-                        .elems
-                        .iter()
-                        .map(|expr| {
-                            let unexpected = || {
-                                Error::custom("Expected array of unsigned integers").with_span(expr)
-                            };
-                            // see FromMeta::from_expr
-                            match peel_groups(expr) {
-                                Expr::Lit(lit) => $ty::from_value(&lit.lit),
-                                _ => Err(unexpected()),
-                            }
-                        })
-                        .collect::<Result<Vec<$ty>>>(),
+                    syn::Expr::Array(expr_array) => no_attrs(&expr_array.attrs).and_then(|_| {
+                        expr_array
+                            .elems
+                            .iter()
+                            .map(|expr| {
+                                let unexpected = || {
+                                    Error::custom("Expected array of unsigned integers")
+                                        .with_span(expr)
+                                };
+                                // see FromMeta::from_expr
+                                match peel_groups(expr) {
+                                    Expr::Lit(lit) => no_attrs(&lit.attrs)
+                                        .and_then(|_| $ty::from_value(&lit.lit)),
+                                    _ => Err(unexpected()),
+                                }
+                            })
+                            .collect::<Result<Vec<$ty>>>()
+                    }),
                     syn::Expr::Lit(expr_lit) => Self::from_value(&expr_lit.lit),
                     syn::Expr::Group(group) => Self::from_expr(&group.expr), // see FromMeta::from_expr
                     _ => Err(Error::unexpected_expr_type(expr)),
@@ -606,11 +619,13 @@ macro_rules! from_meta_lit {
 
             fn from_expr(expr: &syn::Expr) -> Result<Self> {
                 match expr {
-                    syn::Expr::Array(expr_array) => expr_array
-                        .elems
-                        .iter()
-                        .map(<$impl_ty as FromMeta>::from_expr)
-                        .collect::<Result<Vec<_>>>(),
+                    syn::Expr::Array(expr_array) => no_attrs(&expr_array.attrs).and_then(|_| {
+                        expr_array
+                            .elems
+                            .iter()
+                            .map(<$impl_ty as FromMeta>::from_expr)
+                            .collect::<Result<Vec<_>>>()
+                    }),
                     syn::Expr::Lit(expr_lit) => Self::from_value(&expr_lit.lit),
                     syn::Expr::Group(g) => Self::from_expr(&g.expr),
                     _ => Err(Error::unexpected_expr_type(expr)),
